@@ -125,6 +125,17 @@ type CoverDecl struct {
 	Pkg    string
 }
 
+// PerCaptureDecl: a closure created inside a loop captures only variables that
+// are allocated in that same loop iteration (each iteration's closure has its own
+// copy), so closure i keeps what iteration i computed. Vars lists the captured
+// variables the declaration is about (all captured cells if empty).
+type PerCaptureDecl struct {
+	Closure string
+	Vars    map[string]bool
+	Props   []string
+	Line    int
+}
+
 // NoWholeStoreDecl: no module function assigns a whole value of the struct type
 // through a pointer (*p = v), except into an object it allocated itself. Closes
 // the one way of changing a library struct with unexported fields from outside
@@ -222,6 +233,7 @@ type ContractDB struct {
 	ConstGlobals   map[string][]string // "pkg.name" -> properties: assigned once in init with a fresh object
 	Writes         []*WritesDecl
 	NoWholeStore   []*NoWholeStoreDecl
+	PerCapture     []*PerCaptureDecl
 	Covers         []*CoverDecl
 	Funcs          map[string]*FuncContract
 	Specs          map[string]*SpecFn
@@ -238,7 +250,7 @@ type ContractDB struct {
 
 var clauseRe = regexp.MustCompile(`^(requires|ensures|invariant|assert)(\?)?(\[[^\]]*\])?(!!|!)?\s*(.*)$`)
 
-var topKeywords = map[string]bool{"guarded": true, "lockinv": true, "libkeeps": true, "frameset": true, "shared": true, "funcalias": true, "libframe": true, "enumerates": true, "callsites": true, "zeroglobal": true, "constglobal": true, "writes": true, "nowholestore": true, "covers": true, "func": true, "ext": true, "iface": true, "spec": true, "ghost": true, "axiom": true, "sealed": true, "lemma": true, "pure": true, "class": true, "trusted": true}
+var topKeywords = map[string]bool{"guarded": true, "lockinv": true, "libkeeps": true, "frameset": true, "shared": true, "funcalias": true, "libframe": true, "enumerates": true, "callsites": true, "zeroglobal": true, "constglobal": true, "writes": true, "nowholestore": true, "percapture": true, "covers": true, "func": true, "ext": true, "iface": true, "spec": true, "ghost": true, "axiom": true, "sealed": true, "lemma": true, "pure": true, "class": true, "trusted": true}
 var subKeywords = map[string]bool{"spawnset": true, "ghostset": true, "property": true, "flags": true, "requires": true, "ensures": true, "modifies": true, "loop": true, "let": true, "params": true}
 
 func firstWord(s string) string {
@@ -771,6 +783,22 @@ func (db *ContractDB) parseFile(path, pkg string) error {
 				}
 			}
 			db.Writes = append(db.Writes, wd)
+		case "percapture":
+			cur = nil
+			// percapture closureName [var...] [@Cnn]
+			f := strings.Fields(rest)
+			if len(f) < 1 {
+				return fail(l, "percapture closure [var...] [@Cnn]")
+			}
+			pd := &PerCaptureDecl{Closure: qualifyFuncName(pkg, f[0]), Vars: map[string]bool{}, Line: l.line}
+			for _, w := range f[1:] {
+				if strings.HasPrefix(w, "@") {
+					pd.Props = append(pd.Props, w[1:])
+				} else {
+					pd.Vars[w] = true
+				}
+			}
+			db.PerCapture = append(db.PerCapture, pd)
 		case "nowholestore":
 			cur = nil
 			f := strings.Fields(rest)
